@@ -54,6 +54,7 @@ def body_producers(case, ctx):
     op = case["op"]
     a = rl.dense(case["dt"], case["runs"])
     x = rl.encode(a)
+    a = rl.decode(x)      # the oracle works on the DECODED operand: encoding merges -0.0 with 0.0, which changes e.g. 1 // x
     # optionally the producer is applied to a *derived* array (whose neighbouring runs may carry equal values)
     pre = case.get("pre") or ["none"]
     with np.errstate(all="ignore"):
@@ -104,6 +105,7 @@ def body_producers(case, ctx):
             b = rl.dense(op[2], op[3])
             b = np.resize(b, n) if len(b) else np.zeros(n, dtype=op[2])
             y = rl.encode(b)
+            b = rl.decode(y)
             uf = getattr(np, op[1])
             e = lib(lambda: uf(a, b))
             if not e.ok:
@@ -112,7 +114,8 @@ def body_producers(case, ctx):
             rl.expect_rl(lib(lambda: uf(x, y)), e.value, "rl-rl-ufunc", strict=True, uf=op[1])
         elif op[0] == "concat":
             parts = [a] + [rl.dense(case["dt"], r) for r in op[1]]
-            xs = [rl.encode(p) for p in parts]
+            xs = [x] + [rl.encode(p) for p in parts[1:]]
+            parts = [a] + [rl.decode(t) for t in xs[1:]]
             rl.expect_rl(lib(lambda: np.concatenate(xs)), np.concatenate(parts), "concatenate", strict=False)
         elif op[0] == "mask":
             m = np.resize(rl.dense("bool", op[1]), n)
